@@ -291,6 +291,61 @@ example : poolAnswer ⟨1, 9, 255, [⟨1, 1⟩, ⟨3, 3⟩, ⟨6, 9⟩]⟩ (.use
     ∧ poolAnswer ⟨1, 9, 255, [⟨1, 1⟩, ⟨3, 3⟩, ⟨6, 9⟩]⟩ .allocate = some (.optVal (some 1)) := by
   decide
 
+/-- **C20, the monitor `pool_after` is the specification**: in every state that represents a set
+    (`R`), after the call the touched value is where the operation puts it - a released in-range
+    value is free, a value whose reservation succeeded or that was handed out is not free, and
+    `clear` leaves the one interval `[lowest, highest]`. -/
+theorem C20_pool_after {a : A} {s : S} (r : R a s) :
+    (∀ v, a.lowest ≤ v ∧ v ≤ a.highest → Free (step a (.deallocate v)).1.pool v) ∧
+    (∀ v, (step a (.useValue v)).2 = .bool true → ¬ Free (step a (.useValue v)).1.pool v) ∧
+    (∀ v, (step a .allocate).2 = .optVal (some v) → ¬ Free (step a .allocate).1.pool v) ∧
+    (step a .clear).1.pool = [⟨a.lowest, a.highest⟩] := by
+  refine ⟨?_, ?_, ?_, rfl⟩
+  · intro v hv
+    have h := step_refines r (.deallocate v)
+    apply (h.2.free v).2
+    have hlo := r.lo; have hhi := r.hi
+    have hin : s.lowest ≤ v ∧ v ≤ s.highest := by omega
+    have e : (s.step (.deallocate v)).1 = { s with used := s.used.filter (· ≠ v) } := by
+      simp only [S.step, hin, and_self, not_true_eq_false, if_false]
+    rw [e]
+    unfold S.free
+    exact ⟨hin.1, hin.2, by simp⟩
+  · intro v hv
+    have h := step_refines r (.useValue v)
+    rw [h.1] at hv
+    intro hfree
+    have hs := (h.2.free v).1 hfree
+    by_cases hfv : s.free v
+    · have e : (s.step (.useValue v)).1 = { s with used := v :: s.used } := by
+        simp only [S.step, if_pos hfv]
+      rw [e] at hs
+      unfold S.free at hs
+      exact hs.2.2 (by simp)
+    · have e : (s.step (.useValue v)).2 = .bool false := by
+        simp only [S.step, if_neg hfv]
+      rw [e] at hv
+      simp at hv
+  · intro v hv
+    have h := step_refines r .allocate
+    rw [h.1] at hv
+    intro hfree
+    have hs := (h.2.free v).1 hfree
+    cases hsm : s.smallestFree with
+    | none =>
+      have e : (s.step .allocate).2 = .optVal none := by simp only [S.step, hsm]
+      rw [e] at hv
+      simp at hv
+    | some w =>
+      have e2 : (s.step .allocate).2 = .optVal (some w) := by simp only [S.step, hsm]
+      have e1 : (s.step .allocate).1 = { s with used := w :: s.used } := by simp only [S.step, hsm]
+      rw [e2] at hv
+      have hw : w = v := by simpa using hv
+      subst hw
+      rw [e1] at hs
+      unfold S.free at hs
+      exact hs.2.2 (by simp)
+
 /-! ## the pinned tree's behaviour, kept as machine-checked witnesses of the two findings
 
 `deallocRaw` is the body of `deallocate` as it was before the `fix:` commit (no early
